@@ -191,7 +191,7 @@ def configurations(cls, d, tier):
       else:
         yield o, 'prior=%s' % prior, None
   elif cls in ('MMC', 'MMC_Supervised'):
-    for init in ('identity', 'covariance', 'random', 'array'):
+    for init in ('identity', 'covariance', 'random', 'array', 'array32'):     # array32: the SPD array given in single precision
       yield dict(init=init, diagonal=False, max_iter=8), 'init=%s,diagonal=False' % init, None
   elif cls in SCML_FAMILY:
     for basis in (('triplet_diffs', 'array') if cls == 'SCML' else ('triplet_diffs', 'lda', 'array')):
@@ -207,6 +207,8 @@ def _resolve(cls, opts, d, rs, y, case_seed):
   k = p.get('n_components') or d
   if p.get('init') == 'array':
     p['init'] = spd(rs, d) if cls.startswith('MMC') else rs.randn(k, d)
+  elif p.get('init') == 'array32':
+    p['init'] = spd(rs, d).astype(np.float32)
   if p.get('prior') == 'array':
     p['prior'] = spd(rs, d)
   if p.get('basis') == 'array':
@@ -318,11 +320,12 @@ def _oracle(cls, est, ret, d, nc_given, Xtest, recorded):
         fails.append(('M-symmetric-psd', 'get_mahalanobis_matrix() dtype %s / non-finite' % M.dtype, 'M not real finite'))
       else:
         scale = max(np.abs(M).max(), 1e-300)
+        rnd = max(1e-9, 100 * float(np.finfo(M.dtype).eps))      # "up to rounding" of M's own precision (single precision when the init array was)
         asym = np.abs(M - M.T).max()
         ev = np.linalg.eigvalsh((M + M.T) / 2)
-        if asym > 1e-9 * scale:
+        if asym > rnd * scale:
           fails.append(('M-symmetric-psd', 'max |M - M.T| = %.3g at scale %.3g' % (asym, scale), 'M not symmetric'))
-        elif ev.min() < -1e-9 * max(np.abs(ev).max(), 1e-300):
+        elif ev.min() < -rnd * max(np.abs(ev).max(), 1e-300):
           fails.append(('M-symmetric-psd', 'min eigenvalue %.3g (max %.3g)' % (ev.min(), ev.max()), 'M not PSD'))
     except Exception as e:
       fails.append(('M-symmetric-psd', 'get_mahalanobis_matrix raised %s: %s' % (type(e).__name__, str(e)[:200]),
